@@ -1179,8 +1179,22 @@ pub fn run(suite: &str, thorough: bool, seed: u64, shard: usize, nshards: usize,
                     let sp = rt.spans.iter().find(|sp| matches!(sp.what, "method" | "field" | "enumel")).unwrap();
                     let mut toks: Vec<String> = rt.toks[sp.first_with_ann..=sp.last].iter().map(|t| t.text.clone()).collect();
                     let k = r.below(toks.len());
-                    match r.below(4) {
-                        0 => {
+                    let open = toks.iter().position(|t| t == "(");
+                    let close = toks.iter().position(|t| t == ")");
+                    match r.below(if is_enum { 7 } else { 5 }) {
+                        4..=6 if open.is_some() && close.is_some() && open < close => {
+                            // an error inside or right after a parenthesised annotation parameter list, the
+                            // parentheses staying balanced: the member still ends at its own terminator
+                            let (i, j) = (open.unwrap(), close.unwrap());
+                            let plain = ["=", "x1", "12", "void", "@Ann", ".", "foo", "\"s\"", "in", "-"];
+                            let at = r.range(i + 1, j + 1);
+                            if at < j && r.chance(1, 2) {
+                                toks[at] = (*r.pick(&plain)).to_owned();
+                            } else {
+                                toks.insert(at, (*r.pick(&plain)).to_owned());
+                            }
+                        }
+                        0 | 4..=6 => {
                             toks.remove(k);
                         }
                         1 => toks[k] = (*r.pick(&vocab)).to_owned(),
